@@ -34,6 +34,7 @@ import (
 	"io"
 	"os"
 	"reflect"
+	"runtime"
 	"strings"
 	"sync"
 	"sync/atomic"
@@ -55,6 +56,8 @@ func TestMain(m *testing.M) {
 	// Streams log through the global logger; keep the run quiet but count what
 	// the converter goroutines report at error level ("... routine panic").
 	xlog.ReplaceGlobal(xlog.New(&logCore{}))
+	// every converter goroutine of every stream reports when it is back at its queue (conv_test.go)
+	watch.install()
 	// 1-second HLS fragments (config hook), memory segments, GOP cache per case.
 	config.VerifSet(":0", false, true, "", 1)
 	evid.Main(m, "C07")
@@ -84,9 +87,9 @@ func firstLines(s string, n int) string {
 	return strings.Join(l, "\n")
 }
 
-// bound of every wait: three orders of magnitude above the observed latency of
-// the converter chain (milliseconds), small enough that a broken tree fails in
-// reasonable time.
+// bound is only used where no verdict depends on it (short settling waits).
+// Verdicts wait on STATE (converters done, consumer queues drained) under the
+// generous bound of conv_test.go, which a healthy tree never reaches.
 const bound = 5 * time.Second
 
 // ---------------------------------------------------------------- wire
@@ -175,9 +178,9 @@ type caseSpec struct {
 	// metadata ready are kept.
 	PSNotJudged string `json:"parameter_set_identity_not_judged,omitempty"`
 	HLSWaitMs   int    `json:"hls_wait_ms,omitempty"` // 0 = the default bound
-	// SettleMs lets the converter goroutines work off the hostile packets before
-	// the next packet is published (at most this long; ends early once a converter
-	// has logged a recovered panic). It only varies the schedule, it is no oracle.
+	// SettleMs > 0 lets the converter goroutines work off the hostile packets before
+	// the next packet is published (state-based: until they are back at their
+	// queues). It only varies the schedule, it is no oracle.
 	SettleMs int `json:"settle_ms_after_hostile,omitempty"`
 }
 
@@ -344,6 +347,10 @@ type rig struct {
 	flvRec *mediah.Rec
 	sent   []*rtp.Packet
 	paced  int // len(sent) at the last pacing point
+	conv   *convSet
+	rtpCID media.CID
+	flvCID media.CID
+	done   int64 // packets whose WriteRtpPacket has returned (atomic; progress of the publisher)
 }
 
 var rigCounter uint64
@@ -354,8 +361,12 @@ func newRig(c *caseSpec, name string) *rig {
 	r.s = media.NewStream(fmt.Sprintf("/c07/%s%d", name, n), buildSDP(c))
 	r.rtpRec = mediah.NewRec(name + "-rtp")
 	r.flvRec = mediah.NewRec(name + "-flv")
-	r.s.StartConsume(r.rtpRec, media.RTPPacket, "c07")
-	r.s.StartConsume(r.flvRec, media.FLVPacket, "c07")
+	var err error
+	if r.conv, err = watch.bind(r.s); err != nil {
+		panic("c07 machinery: " + err.Error())
+	}
+	r.rtpCID = r.s.StartConsume(r.rtpRec, media.RTPPacket, "c07")
+	r.flvCID = r.s.StartConsume(r.flvRec, media.FLVPacket, "c07")
 	return r
 }
 
@@ -374,15 +385,18 @@ func (r *rig) write(p *rtp.Packet) (esc *escaped) {
 	}()
 	r.sent = append(r.sent, p)
 	r.s.WriteRtpPacket(p)
+	atomic.AddInt64(&r.done, 1)
 	// Pace the publisher to the recording RTP consumer: ipchub lets a consumer fall
 	// 1000 packets behind and then drops, from a key picture on, until it has caught
 	// up (property C04's documented backlog rule) — a recorder that a long burst has
 	// left behind would legitimately lose packets, which is not what C07 judges.
 	// State-based: every 400 packets wait until the recorder is within 100 of what
-	// was published (bounded; if the relay has really stopped the oracle says so).
+	// was published, or its queue is drained (then nothing more is coming).
 	if len(r.sent)-r.paced >= 400 {
 		r.paced = len(r.sent)
-		mediah.WaitFor(6*bound, func() bool { return r.rtpRec.Len() >= len(r.sent)-100 })
+		mediah.WaitFor(generous, func() bool {
+			return r.rtpRec.Len() >= len(r.sent)-100 || consumerDrained(r.s, r.rtpCID)
+		})
 	}
 	return nil
 }
@@ -607,6 +621,8 @@ func runCase(c *caseSpec, inject bool) *result {
 			case <-time.After(wait):
 			}
 		}
+		watch.release(a.conv)
+		watch.release(b.conv)
 	}()
 	res.HasFLV = a.s.Video.Codec == "H264" || a.s.Video.Codec == "H265"
 	hlsStream := hlsOf(a.s) != nil
@@ -628,8 +644,14 @@ func runCase(c *caseSpec, inject bool) *result {
 	pb := buildProbeRot(c.codec(), c.Audio, k, c.ProbeTS, vseq, aseq, c.ProbeRot)
 
 	done := make(chan struct{})
+	var pubGoroutine atomic.Value // "goroutine N [" of the publishing goroutine
 	go func() {
 		defer close(done)
+		hdr := make([]byte, 64)
+		hdr = hdr[:runtime.Stack(hdr, false)]
+		if i := bytes.IndexByte(hdr, '['); i > 0 {
+			pubGoroutine.Store(string(hdr[:i+1]))
+		}
 		for i := 0; i <= len(c.Prefix); i++ {
 			if i == c.Pos && inject {
 				for h := range c.Hostile {
@@ -641,8 +663,8 @@ func runCase(c *caseSpec, inject bool) *result {
 					}
 				}
 				if c.SettleMs > 0 {
-					before := atomic.LoadInt64(&loggedPanics)
-					mediah.WaitFor(time.Duration(c.SettleMs)*time.Millisecond, func() bool { return atomic.LoadInt64(&loggedPanics) != before })
+					// let the converters work off the hostile packets before the next one is published
+					mediah.WaitFor(generous, func() bool { return watch.done(a.conv, len(a.sent)) })
 				}
 			}
 			if i == len(c.Prefix) {
@@ -672,28 +694,21 @@ func runCase(c *caseSpec, inject bool) *result {
 			}
 		}
 	}()
-	select {
-	case <-done:
-	case <-time.After(3 * bound):
-		res.Hang = fmt.Sprintf("the publishing goroutine did not return from WriteRtpPacket within %v", 3*bound)
+	// "publisher blocked" is a state, not a deadline: no packet has completed for a
+	// long while AND two goroutine dumps a second apart show the publishing
+	// goroutine parked at the same place inside Stream.WriteRtpPacket.
+	if hang := waitPublisher(done, &pubGoroutine, a, b); hang != "" {
+		res.Hang = hang
 		return res
 	}
 	if res.Escaped != nil {
 		return res
 	}
-	wb := bound
-	if c.BoundScale > 1 {
-		wb = time.Duration(c.BoundScale) * bound
-	}
-	hb := wb
-	if c.HLSWaitMs > 0 {
-		hb = time.Duration(c.HLSWaitMs) * time.Millisecond
-	}
-	res.RTPMiss, res.FLVMiss, res.HLSMiss = continuation(a, pa, res.HasFLV, res.HasHLS, wb, hb)
+	res.RTPMiss, res.FLVMiss, res.HLSMiss = continuation(a, pa, res.HasFLV, res.HasHLS)
 	if inject && c.PSNotJudged == "" && res.RTPMiss+res.FLVMiss+res.HLSMiss == "" {
-		res.PSWrong = parameterSetIdentity(c, a, pa, res.HasFLV, res.HasHLS, wb)
+		res.PSWrong = parameterSetIdentity(c, a, pa, res.HasFLV, res.HasHLS)
 	}
-	r2, f2, h2 := continuation(b, pb, res.HasFLV, hlsStream, wb, wb)
+	r2, f2, h2 := continuation(b, pb, res.HasFLV, hlsStream)
 	if r2+f2+h2 != "" {
 		res.TwinMiss = strings.TrimSpace(r2 + " " + f2 + " " + h2)
 	}
@@ -716,19 +731,66 @@ func runCase(c *caseSpec, inject bool) *result {
 	return res
 }
 
-// continuation waits (bounded) for the probe to come out of r and says what is
-// missing.
-func continuation(r *rig, probe []probeAU, hasFLV, hasHLS bool, bound, hlsBound time.Duration) (rtpMiss, flvMiss, hlsMiss string) {
+// waitPublisher waits for the publishing goroutine. It returns "" when the
+// goroutine has finished, or the evidence that it is blocked inside ipchub.
+func waitPublisher(done chan struct{}, gid *atomic.Value, rigs ...*rig) string {
+	progress := func() (n int64) {
+		for _, r := range rigs {
+			n += atomic.LoadInt64(&r.done)
+		}
+		return
+	}
+	last, since := progress(), time.Now()
+	for {
+		select {
+		case <-done:
+			return ""
+		case <-time.After(50 * time.Millisecond):
+		}
+		if p := progress(); p != last {
+			last, since = p, time.Now()
+			continue
+		}
+		if time.Since(since) < generous/2 {
+			continue
+		}
+		// no packet completed for a minute: is the goroutine parked inside WriteRtpPacket?
+		id, _ := gid.Load().(string)
+		pick := func() string {
+			for _, g := range stacksOf("media.(*Stream).WriteRtpPacket") {
+				if id != "" && strings.HasPrefix(g, id) {
+					return g
+				}
+			}
+			return ""
+		}
+		s1 := pick()
+		time.Sleep(time.Second)
+		s2 := pick()
+		if s1 != "" && s1 == s2 && progress() == last {
+			return fmt.Sprintf("the publishing goroutine completed no packet for %v and is parked inside WriteRtpPacket (two identical stack samples a second apart):\n%s", time.Since(since).Round(time.Second), firstLines(s1, 16))
+		}
+		since = time.Now() // not inside ipchub (paced by the harness / descheduled): keep waiting
+	}
+}
+
+// continuation says what of the probe is missing at r — after the STATE in which
+// nothing more can arrive has been reached: the recording consumers' queues are
+// drained and the converter goroutines have worked off everything published.
+func continuation(r *rig, probe []probeAU, hasFLV, hasHLS bool) (rtpMiss, flvMiss, hlsMiss string) {
 	var want []*rtp.Packet
 	for _, au := range probe {
 		want = append(want, au.pkts...)
 	}
 	// (1) RTP relay: the tail of what the consumer received is the probe, same objects, in order
 	total := len(r.sent)
-	if !mediah.WaitFor(bound, func() bool { return r.rtpRec.Len() >= total }) {
-		rtpMiss = fmt.Sprintf("RTP consumer received %d of %d published packets within %v", r.rtpRec.Len(), total, bound)
-	} else {
-		got := r.rtpRec.Got()
+	settled := mediah.WaitFor(generous, func() bool { return r.rtpRec.Len() >= total || consumerDrained(r.s, r.rtpCID) })
+	switch got := r.rtpRec.Got(); {
+	case !settled:
+		rtpMiss = fmt.Sprintf("RTP consumer: its delivery goroutine has not drained its queue for %v (%d of %d published packets delivered, %d queued)", generous, len(got), total, media.VerifQueueLen(r.s, r.rtpCID))
+	case len(got) < total:
+		rtpMiss = fmt.Sprintf("RTP consumer received %d of %d published packets, its queue is empty and nothing is in flight", len(got), total)
+	default:
 		tail := got[len(got)-len(want):]
 		for i := range want {
 			if p, ok := tail[i].(*rtp.Packet); !ok || p != want[i] {
@@ -737,6 +799,15 @@ func continuation(r *rig, probe []probeAU, hasFLV, hasHLS bool, bound, hlsBound 
 			}
 		}
 	}
+	if !hasFLV && !hasHLS {
+		return
+	}
+	// the converters have worked off everything that was published
+	if wedged := watch.waitDone(r.conv, total); wedged != "" {
+		flvMiss = wedged
+		return
+	}
+	state := "after the demuxer and the muxers had worked off all " + fmt.Sprint(total) + " published packets"
 	// (2) FLV
 	if hasFLV {
 		var tags [][]byte
@@ -748,7 +819,9 @@ func continuation(r *rig, probe []probeAU, hasFLV, hasHLS bool, bound, hlsBound 
 		}
 		last := tags[len(tags)-1]
 		lastV := probe[len(probe)-1].vtag
-		mediah.WaitFor(bound, func() bool { return r.flvHas(last) && r.flvHas(lastV) })
+		drained := mediah.WaitFor(generous, func() bool {
+			return (r.flvHas(last) && r.flvHas(lastV)) || consumerDrained(r.s, r.flvCID)
+		})
 		pos := r.flvPositions(tags)
 		missing := 0
 		for _, p := range pos {
@@ -756,9 +829,12 @@ func continuation(r *rig, probe []probeAU, hasFLV, hasHLS bool, bound, hlsBound 
 				missing++
 			}
 		}
-		if missing > 0 {
-			flvMiss = fmt.Sprintf("FLV consumer: %d of %d probe units (key frames / AAC frames) never appeared as tags within %v; %d tags received in all", missing, len(tags), bound, r.flvRec.Len())
-		} else {
+		switch {
+		case missing > 0 && !drained:
+			flvMiss = fmt.Sprintf("FLV consumer: its delivery goroutine has not drained its queue for %v (%d tags queued)", generous, media.VerifQueueLen(r.s, r.flvCID))
+		case missing > 0:
+			flvMiss = fmt.Sprintf("FLV consumer: %s, %d of %d probe units (key frames / AAC frames) are missing (its queue is empty); %d tags received in all; %s", state, missing, len(tags), r.flvRec.Len(), watch.describe(r.conv, total))
+		default:
 			// video order and audio order are each kept
 			lv, la := -1, -1
 			for i, p := range pos {
@@ -777,16 +853,13 @@ func continuation(r *rig, probe []probeAU, hasFLV, hasHLS bool, bound, hlsBound 
 			}
 		}
 	}
-	// (3) HLS: a closed segment holds one of the probe's key frames
+	// (3) HLS. The segmenter runs inside the TS muxer goroutine, so once that has
+	// worked off its queue the playlist is in its final state: one look, no wait.
+	// A well-formed FRAGMENTED key picture must still reach HLS: one of the probe's
+	// fragmented units (three of nine) has to be in a served segment. (Which units
+	// lie in segments already cut when the probe ends depends on how audio and
+	// video presentation times interleave; the last ones are in the open segment.)
 	if hasHLS {
-		if flvMiss != "" && hlsBound > time.Second {
-			hlsBound = time.Second // the frames did not even reach the FLV side: do not wait long again
-		}
-		// A well-formed FRAGMENTED key picture must still reach HLS: one of the
-		// probe's fragmented units (three of nine) has to show up in a served
-		// segment. (Which units lie in segments already cut when the probe ends
-		// depends on how audio and video presentation times interleave; the last
-		// units are always still in the open segment.)
 		frag := false
 		for _, au := range probe {
 			frag = frag || au.fragmented
@@ -797,23 +870,12 @@ func continuation(r *rig, probe []probeAU, hasFLV, hasHLS bool, bound, hlsBound 
 				look = append(look, au.vtag)
 			}
 		}
-		ok := false
-		scanned := map[int]int{}
-		for dl := time.Now().Add(hlsBound); ; time.Sleep(time.Millisecond) {
-			if ok = r.hlsHasAny(look, scanned); ok || time.Now().After(dl) {
-				break
-			}
-		}
-		var must []byte
-		if frag {
-			must = []byte{1}
-		}
-		if !ok {
+		if !r.hlsHasAny(look, nil) {
 			what := fmt.Sprintf("any of the %d probe key frames", len(probe))
-			if must != nil {
+			if frag {
 				what = "any of the fragmented probe key frames"
 			}
-			hlsMiss = fmt.Sprintf("HLS: no segment served by the playlist holds %s within %v", what, hlsBound)
+			hlsMiss = fmt.Sprintf("HLS: %s, no segment served by the playlist holds %s", state, what)
 		}
 	}
 	return
@@ -984,7 +1046,7 @@ func checkSequenceHeader(c *caseSpec, who string, got []media.Pack, lg map[byte]
 // stored sets before every IDR); (2) the sequence header of the FLV client that
 // watched from the start; (3) the sequence header a late FLV joiner is handed
 // after the hostile input.
-func parameterSetIdentity(c *caseSpec, r *rig, probe []probeAU, hasFLV, hasHLS bool, bound time.Duration) string {
+func parameterSetIdentity(c *caseSpec, r *rig, probe []probeAU, hasFLV, hasHLS bool) string {
 	lg := legit(c)
 	if hasFLV {
 		if m := checkSequenceHeader(c, "FLV client from the start", r.flvRec.Got(), lg); m != "" {
@@ -992,7 +1054,8 @@ func parameterSetIdentity(c *caseSpec, r *rig, probe []probeAU, hasFLV, hasHLS b
 		}
 		late := mediah.NewRec(r.name + "-late-flv")
 		cid := r.s.StartConsume(late, media.FLVPacket, "c07-late")
-		mediah.WaitFor(bound/10, func() bool { _, _, ok := flvSequenceHeader(late.Got()); return ok })
+		// what a joiner is handed is queued inside StartConsume: wait until its queue is drained
+		mediah.WaitFor(generous, func() bool { return consumerDrained(r.s, cid) })
 		m := checkSequenceHeader(c, "late FLV joiner", late.Got(), lg)
 		r.s.StopConsume(cid)
 		if m != "" {
